@@ -476,3 +476,19 @@ pub fn equality_numbers<N: Nondet, const NEGATE: bool>(n: &mut N) {
     let want = if equal != NEGATE { T::True } else { T::False };
     pa!("C11", s.d.cells[top(&s.d)].tag == want);
 }
+
+/// the four ordering instructions on a pair of operands of the concrete, non-comparable types (LT, RT)
+/// (symbolic contents): false, never an error, nothing deferred
+pub fn compare_mismatch<N: Nondet, const I: usize, const LT: usize, const RT: usize>(n: &mut N) {
+    let instr = ALL_INSTRUCTIONS[I];
+    let (mut d, left) = fixture(n, LT);
+    let right = push_any(n, &mut d);
+    n.assume(d.cells[right].tag == TAGS[RT]);
+    let mut s = finish(n, d, &[left, right], instr);
+    let res = execute_current_instruction(&mut s.d);
+    gv_cover!(true, "reached");
+    pa!("C12", ran_ok(res));
+    pa!("C06", s.d.n_regs == s.regs_before - 1 && s.d.regs[0] == s.sentinel && s.d.cursor == 1);
+    pa!("C08", s.d.n_calls == 0);
+    pa!("C12", s.d.cells[top(&s.d)].tag == T::False);
+}
